@@ -121,6 +121,7 @@ class Segment(GeoBody):
         if isinstance(v, Vector):
             self.start_point.move(v)
             self.end_point.move(v)
+            self.line = Line(self.start_point, self.end_point)
             return Segment(self.start_point, self.end_point)
         else:
             raise NotImplementedError(
